@@ -253,4 +253,191 @@ theorem C15_bookkeeping (ops : List BNOp) : (BNState.init.run ops).Book := by
 
 example : (BNState.init.run [.addNode 3 true, .addEdge 3 1, .removeNode 3]).latents = [] := by decide
 
+/-! ### CPD bookkeeping: at most one CPD per variable, each for a node of the graph -/
+
+/-- a table with a non-empty duplicate-free scope and one cardinality per scope variable
+    (what `TabularCPD.__init__` guarantees) -/
+def Shaped (f : Factor) : Prop := f.scope ≠ [] ∧ f.scope.length = f.card.length ∧ f.scope.Nodup
+
+def BNOp.Shaped : BNOp → Prop
+  | .addCpd f => PgmVerif.Shaped f
+  | _ => True
+
+/-- `TabularCPD.marginalize` over variables other than the child keeps the child in front -/
+theorem shaped_marg (f : Factor) (ps : List Var) (h : Shaped f) (hc : childOf f ∉ ps) :
+    Shaped (CPD.marginalize f ps) ∧ childOf (CPD.marginalize f ps) = childOf f := by
+  obtain ⟨hne, hlen, hnd⟩ := h
+  have hs : (CPD.marginalize f ps).scope = (f.outside ps).map (·.1) := rfl
+  have hk : (CPD.marginalize f ps).card = (f.outside ps).map (·.2) := rfl
+  have hsub : ((f.outside ps).map (·.1)).Sublist f.scope := by
+    have h1 : (f.outside ps).Sublist (f.scope.zip f.card) := List.filter_sublist
+    have h2 := h1.map (·.1)
+    rwa [List.map_fst_zip (by omega)] at h2
+  have hnd' : ((f.outside ps).map (·.1)).Nodup := hsub.nodup hnd
+  cases hsc : f.scope with
+  | nil => exact absurd hsc hne
+  | cons c rest =>
+    cases hcd : f.card with
+    | nil => rw [hsc, hcd] at hlen; simp at hlen
+    | cons k krest =>
+      have hcc : childOf f = c := by simp [childOf, hsc]
+      have hcn : c ∉ ps := by rw [hcc] at hc; exact hc
+      have hout : f.outside ps = (c, k) :: (rest.zip krest).filter (fun p => !ps.contains p.1) := by
+        unfold Factor.outside; rw [hsc, hcd]; simp [List.filter_cons, hcn]
+      refine ⟨⟨?_, ?_, ?_⟩, ?_⟩
+      · rw [hs, hout]; simp
+      · rw [hs, hk]; simp
+      · rw [hs]; exact hnd'
+      · rw [hcc]; simp [childOf, hs, hout]
+
+def BNState.CpdInv (s : BNState) : Prop :=
+  (s.cpds.map childOf).Nodup ∧ ∀ f ∈ s.cpds, Shaped f ∧ childOf f ∈ s.nodes
+
+theorem map_child_keep (l : List Factor) (g : Factor → Factor)
+    (hg : ∀ f ∈ l, childOf (g f) = childOf f) : (l.map g).map childOf = l.map childOf := by
+  rw [List.map_map]
+  exact List.map_congr_left (fun f hf => hg f hf)
+
+theorem C15_step_cpds (s : BNState) (op : BNOp) (hop : op.Shaped) (h : s.CpdInv) :
+    (s.step op).1.CpdInv := by
+  obtain ⟨hnd, hall⟩ := h
+  cases op with
+  | addNode v l =>
+    exact ⟨hnd, fun f hf => ⟨(hall f hf).1, (mem_addIfAbsent _ _ _).mpr (Or.inl (hall f hf).2)⟩⟩
+  | addEdge u v =>
+    simp only [step]
+    split
+    · exact ⟨hnd, hall⟩
+    · split
+      · exact ⟨hnd, hall⟩
+      · exact ⟨hnd, fun f hf => ⟨(hall f hf).1,
+          (mem_addIfAbsent _ _ _).mpr (Or.inl ((mem_addIfAbsent _ _ _).mpr (Or.inl (hall f hf).2)))⟩⟩
+  | removeNode v =>
+    simp only [step]
+    split
+    · exact ⟨hnd, hall⟩
+    · have hkeep : ∀ f ∈ s.cpds.filter (fun f => childOf f != v),
+          Shaped (if f.scope.contains v && s.edges.contains (v, childOf f) then CPD.marginalize f [v] else f) ∧
+          childOf (if f.scope.contains v && s.edges.contains (v, childOf f) then CPD.marginalize f [v] else f)
+            = childOf f := by
+        intro f hf
+        obtain ⟨hf1, hf2⟩ := List.mem_filter.mp hf
+        have hne : childOf f ≠ v := by simpa using hf2
+        split
+        · exact shaped_marg f [v] (hall f hf1).1 (by simpa using hne)
+        · exact ⟨(hall f hf1).1, rfl⟩
+      refine ⟨?_, ?_⟩
+      · show (((s.cpds.filter (fun f => childOf f != v)).map _).map childOf).Nodup
+        rw [map_child_keep _ _ (fun f hf => (hkeep f hf).2)]
+        exact ((List.filter_sublist (l := s.cpds)).map childOf).nodup hnd
+      · intro g hg
+        obtain ⟨f, hf, rfl⟩ := List.mem_map.mp hg
+        obtain ⟨hf1, hf2⟩ := List.mem_filter.mp hf
+        refine ⟨(hkeep f hf).1, ?_⟩
+        rw [(hkeep f hf).2]
+        exact List.mem_filter.mpr ⟨(hall f hf1).2, hf2⟩
+  | addCpd f =>
+    have hsf : Shaped f := hop
+    simp only [step]
+    split
+    · next hin =>
+      have hcin : childOf f ∈ s.nodes := by
+        obtain ⟨hne, _, _⟩ := hsf
+        cases hsc : f.scope with
+        | nil => exact absurd hsc hne
+        | cons c rest =>
+          rw [hsc] at hin
+          have : c ∈ s.nodes := by
+            have h2 : (s.nodes.contains c && rest.all s.nodes.contains) = true := by simpa using hin
+            have h3 : s.nodes.contains c = true := (Bool.and_eq_true _ _ ▸ h2).1
+            exact List.contains_iff_mem.mp h3
+          simpa [childOf, hsc] using this
+      split
+      · have hk : ∀ g ∈ s.cpds, childOf (if childOf g == childOf f then f else g) = childOf g := by
+          intro g _
+          split
+          · next he => exact (by simpa using he : childOf g = childOf f).symm
+          · rfl
+        refine ⟨?_, ?_⟩
+        · show ((s.cpds.map _).map childOf).Nodup
+          rw [map_child_keep _ _ hk]; exact hnd
+        · intro g hg
+          obtain ⟨g0, hg0, rfl⟩ := List.mem_map.mp hg
+          split
+          · exact ⟨hsf, hcin⟩
+          · exact hall g0 hg0
+      · next hany =>
+        refine ⟨?_, ?_⟩
+        · show ((s.cpds ++ [f]).map childOf).Nodup
+          rw [List.map_append]
+          refine List.nodup_append.mpr ⟨hnd, by simp, ?_⟩
+          intro a ha b hb e
+          have hb' : b = childOf f := by simpa using hb
+          subst e; subst hb'
+          obtain ⟨g, hg, hge⟩ := List.mem_map.mp ha
+          apply hany
+          exact List.any_eq_true.mpr ⟨g, hg, by simpa using hge⟩
+        · intro g hg
+          rcases List.mem_append.mp hg with hg | hg
+          · exact hall g hg
+          · have : g = f := by simpa using hg
+            subst this; exact ⟨hsf, hcin⟩
+    · exact ⟨hnd, hall⟩
+  | removeCpd v =>
+    simp only [step]
+    split
+    · exact ⟨((List.filter_sublist (l := s.cpds)).map childOf).nodup hnd,
+        fun f hf => hall f (List.mem_filter.mp hf).1⟩
+    · exact ⟨hnd, hall⟩
+  | doOp vs =>
+    simp only [step]
+    split
+    · have hkeep : ∀ f ∈ s.cpds,
+          Shaped (if vs.contains (childOf f) then CPD.marginalize f (f.scope.drop 1) else f) ∧
+          childOf (if vs.contains (childOf f) then CPD.marginalize f (f.scope.drop 1) else f) = childOf f := by
+        intro f hf
+        split
+        · refine shaped_marg f _ (hall f hf).1 ?_
+          obtain ⟨hne, _, hnod⟩ := (hall f hf).1
+          cases hsc : f.scope with
+          | nil => exact absurd hsc hne
+          | cons c rest =>
+            rw [hsc] at hnod
+            simpa [childOf, hsc] using (List.nodup_cons.mp hnod).1
+        · exact ⟨(hall f hf).1, rfl⟩
+      refine ⟨?_, ?_⟩
+      · show ((s.cpds.map _).map childOf).Nodup
+        rw [map_child_keep _ _ (fun f hf => (hkeep f hf).2)]; exact hnd
+      · intro g hg
+        obtain ⟨f, hf, rfl⟩ := List.mem_map.mp hg
+        refine ⟨(hkeep f hf).1, ?_⟩
+        rw [(hkeep f hf).2]
+        exact (hall f hf).2
+    · exact ⟨hnd, hall⟩
+
+/-- **after any history** whose `add_cpds` arguments are CPD-shaped there is at most one CPD per variable
+    and every stored CPD belongs to a node that is still in the graph, child variable in front:
+    `add_cpds` replaces, `remove_node` deletes the node's CPD and keeps the children's CPDs theirs,
+    `do` keeps the intervened variable's CPD its own -/
+theorem C15_cpd_bookkeeping (ops : List BNOp) (hops : ∀ op ∈ ops, op.Shaped) :
+    (BNState.init.run ops).CpdInv := by
+  have : ∀ (ops : List BNOp) (s : BNState), (∀ op ∈ ops, op.Shaped) → s.CpdInv → (s.run ops).CpdInv := by
+    intro ops
+    induction ops with
+    | nil => intro s _ h; exact h
+    | cons op ops ih =>
+      intro s ho h
+      exact ih _ (fun o hmem => ho o (List.mem_cons_of_mem _ hmem))
+        (C15_step_cpds s op (ho op List.mem_cons_self) h)
+  exact this ops BNState.init hops ⟨List.nodup_nil, fun f hf => by cases hf⟩
+
+-- non-vacuity: a CPD-shaped table, and a history in which a CPD is replaced and its node removed
+example : Shaped { scope := [1, 0], card := [2, 2], vals := #[1, 0, 0, 1] } :=
+  ⟨by simp, by simp, by decide⟩
+example : ((BNState.init.run [.addEdge 0 1,
+    .addCpd { scope := [1, 0], card := [2, 2], vals := #[1, 0, 0, 1] },
+    .addCpd { scope := [1, 0], card := [2, 2], vals := #[0, 1, 1, 0] },
+    .addCpd { scope := [0], card := [2], vals := #[1, 0] },
+    .removeNode 0]).cpds.map childOf) = [1] := by decide
+
 end PgmVerif
